@@ -156,4 +156,130 @@ def vectors (cap : Nat) : Nat → List (List Nat)
 def retainCount (cap extra i : Nat) : Nat :=
   (vectors cap extra).countP (fun cs => decide (i ∈ retained cap cs))
 
+/-! ### `Drain` as an iterator OBJECT (round 6): `next`, `ExactSizeIterator::len`, and the `Iterator` default methods
+
+`impl Iterator for Drain` defines `next` only (pinned by `src_drain_iterator_inventory`), so `nth`, `count`, `last`,
+`fold`/`sum`, `collect`, `size_hint` are the trait's DEFAULT methods: loops over `next`.  They are modelled as such. -/
+
+/-- `struct Drain { reservoir, unsampled_len, len, idx }` (the slots it reads are those of the retired side) -/
+structure DrainIt where
+  slots : List Nat
+  unsampled : Nat
+  len : Nat
+  idx : Nat
+  deriving DecidableEq, Repr
+
+/-- `Reservoir::drain`: the `Drain` object before anything was read -/
+def Res.drainIt (r : Res) : DrainIt :=
+  { slots := r.slots, unsampled := r.count,
+    len := if r.count > r.slots.length then r.slots.length else r.count, idx := 0 }
+
+/-- `Drain::next`: `if self.idx < self.len { load slot idx; idx += 1; Some } else { None }` — no rewind -/
+def DrainIt.next (d : DrainIt) : DrainIt × Option Nat :=
+  if d.idx < d.len then ({ d with idx := d.idx + 1 }, some (d.slots.getD d.idx 0)) else (d, none)
+
+/-- `ExactSizeIterator::len` of `Drain`: `self.len - self.idx` -/
+def DrainIt.remaining (d : DrainIt) : Nat := d.len - d.idx
+
+/-- `Drain::sample_rate` of the object (does not depend on `idx`) -/
+def DrainIt.rate (d : DrainIt) : Nat × Nat :=
+  if d.unsampled = d.len then (1, 1) else (d.len, d.unsampled)
+
+/-- `Iterator::advance_by(k)` (default): up to `k` calls of `next`, stopping at the first `None` -/
+def DrainIt.advance : Nat → DrainIt → DrainIt
+  | 0, d => d
+  | k + 1, d =>
+    match d.next with
+    | (d', some _) => DrainIt.advance k d'
+    | (d', none) => d'
+
+/-- `Iterator::nth(k)` (default): `advance_by(k)`, then `next()` -/
+def DrainIt.nth (d : DrainIt) (k : Nat) : DrainIt × Option Nat := (d.advance k).next
+
+/-- the loop `while let Some(v) = it.next()` with `fuel` iterations at most: the values seen and the iterator left -/
+def DrainIt.pull : Nat → DrainIt → DrainIt × List Nat
+  | 0, d => (d, [])
+  | f + 1, d =>
+    match d.next with
+    | (d', some v) => let (d'', vs) := DrainIt.pull f d'; (d'', v :: vs)
+    | (d', none) => (d', [])
+
+/-- `collect()` / `fold` / `for v in drain` (defaults): every value `next` still yields.  `remaining + 1` iterations
+    are enough for the loop to see its `None` (`pullAll_exhausts`). -/
+def DrainIt.pullAll (d : DrainIt) : DrainIt × List Nat := DrainIt.pull (d.remaining + 1) d
+
+/-- what a consume closure may do with the `Drain` before it drops it -/
+inductive ItOp
+  | next
+  | nth (k : Nat)
+  | len
+  | rate
+  | collect          -- `by_ref().collect()`, `by_ref().count()`, `by_ref().last()`, `by_ref().sum()`, `for v in &mut drain`
+  deriving DecidableEq, Repr
+
+/-- one closure step: the iterator afterwards and the values handed to the closure by this step -/
+def DrainIt.stepIt (d : DrainIt) : ItOp → DrainIt × List Nat
+  | .next => match d.next with | (d', some v) => (d', [v]) | (d', none) => (d', [])
+  | .nth k => match d.nth k with | (d', some v) => (d', [v]) | (d', none) => (d', [])
+  | .len => (d, [])
+  | .rate => (d, [])
+  | .collect => d.pullAll
+
+/-- a whole closure script: all values handed out, in order -/
+def DrainIt.runIt : DrainIt → List ItOp → DrainIt × List Nat
+  | d, [] => (d, [])
+  | d, op :: ops =>
+    let (d', vs) := d.stepIt op
+    let (d'', ws) := DrainIt.runIt d' ops
+    (d'', vs ++ ws)
+
+/-! ### the DogStatsD builder's sampling configuration (metrics-exporter-dogstatsd/src/builder.rs → state.rs → storage.rs) -/
+
+/-- `const DEFAULT_HISTOGRAM_RESERVOIR_SIZE: usize = 1024` -/
+def defaultReservoirSize : Nat := 1024
+
+/-- the two fields of `DogStatsDBuilder` that decide the histogram storage -/
+structure Builder where
+  sampling : Bool
+  size : Nat
+  deriving DecidableEq, Repr
+
+/-- `impl Default for DogStatsDBuilder`: `histogram_sampling: false` (the CODE; the setter's doc comment says
+    "Defaults to `true`"), `histogram_reservoir_size: DEFAULT_HISTOGRAM_RESERVOIR_SIZE` -/
+def Builder.default : Builder := { sampling := false, size := defaultReservoirSize }
+
+/-- builder calls that touch the sampling configuration -/
+inductive BOp
+  | sampling (b : Bool)      -- `with_histogram_sampling(b)`
+  | size (n : Nat)           -- `with_histogram_reservoir_size(n)`
+  deriving DecidableEq, Repr
+
+def Builder.apply (b : Builder) : BOp → Builder
+  | .sampling x => { b with sampling := x }
+  | .size n => { b with size := n }
+
+def Builder.configure (ops : List BOp) : Builder := ops.foldl Builder.apply Builder.default
+
+/-- `enum AtomicHistogram { Raw(AtomicBucket), Sampled(AtomicSamplingReservoir) }` (the raw bucket is C05/C07's) -/
+inductive Hist
+  | raw
+  | sampled (a : ASR)
+  deriving DecidableEq, Repr
+
+/-- `build()` copies both fields into `StateConfiguration`, `State::new` hands them to
+    `ClientSideAggregatedStorage::new`, whose `histogram()` calls `AtomicHistogram::new(sampling, reservoir_size)` -/
+def Builder.histogram (b : Builder) : Hist := if b.sampling then .sampled (ASR.new b.size) else .raw
+
+/-- the last `with_histogram_sampling` argument of a call chain (`none`: never called) -/
+def lastSampling : List BOp → Option Bool
+  | [] => none
+  | .sampling x :: ops => (lastSampling ops).or (some x)
+  | .size _ :: ops => lastSampling ops
+
+/-- the last `with_histogram_reservoir_size` argument of a call chain -/
+def lastSize : List BOp → Option Nat
+  | [] => none
+  | .size n :: ops => (lastSize ops).or (some n)
+  | .sampling _ :: ops => lastSize ops
+
 end MetricsVerif.Reservoir
